@@ -1360,7 +1360,22 @@ func (self *BinaryServerProtocol) ProcessParseLockData() (*protocol.LockCommandD
 	if err != nil {
 		return nil, err
 	}
+	if !checkLockCommandDataFrame(buf) {
+		return nil, errors.New("lock data frame error")
+	}
 	return protocol.NewLockCommandDataFromOriginBytes(buf), nil
+}
+
+func checkLockCommandDataFrame(buf []byte) bool {
+	if len(buf) < 6 {
+		return false
+	}
+	if buf[5]&protocol.LOCK_DATA_FLAG_CONTAINS_PROPERTY != 0 {
+		if len(buf) < 8 || (int(buf[6])|int(buf[7])<<8)+8 > len(buf) {
+			return false
+		}
+	}
+	return true
 }
 
 func (self *BinaryServerProtocol) ProcessBuild(command protocol.ICommand) error {
